@@ -120,6 +120,9 @@ func (v *V) nodes(acc *[]*V) {
 	}
 }
 
+// set by the generator for the guaranteed large shapes: the edit goes to the tail
+var forceTailEdit bool
+
 // one-place edit of a copy of t; returns the edited copy and a tag
 func (r *R) editOnce(t *V, o *TreeOpts) (*V, string) {
 	c := t.clone()
@@ -138,7 +141,7 @@ func (r *R) editOnce(t *V, o *TreeOpts) (*V, string) {
 		}
 	}
 	// on long containers: the LAST scalar leaves (a comparison that splits the work by size may never look at the tail)
-	if len(ns) > 40 && r.chance(0.35) {
+	if len(ns) > 40 && (forceTailEdit || r.chance(0.35)) {
 		for k := len(ns) - 1; k >= 0 && k >= len(ns)-6; k-- {
 			m := ns[k]
 			switch m.K {
@@ -329,7 +332,7 @@ func genC07(r *R, n int, tier string, out *Out) {
 		}
 		var b *V
 		tag := ""
-		if r.chance(0.1) { // unrelated tree of the same root kind
+		if i >= 3*len(big) && r.chance(0.1) { // unrelated tree of the same root kind
 			if a.K == KList {
 				b = r.listTree(o)
 			} else {
@@ -337,7 +340,9 @@ func genC07(r *R, n int, tier string, out *Out) {
 			}
 			tag = "unrelated"
 		} else {
+			forceTailEdit = i < len(big) // the first pass over the large shapes: an edit of one of the last leaves, always
 			b, tag = r.editOnce(a, o)
+			forceTailEdit = false
 			if b.K != a.K { // the root itself changed kind: Equals takes the same interface type
 				b = a.clone()
 				tag = "edit:identical-copy"
